@@ -49,14 +49,14 @@ for i in range(1, 21):
 LI = {
  'C01': "34 shared multi-word helpers of bid_internal.rs (carry/borrow adds, 64x64..128x128 multiplies, shifts, compares), each exact for all inputs",
  'C02': "34 shared multi-word helpers of bid_internal.rs, each exact for all inputs",
- 'C03': "18 of the 20 predicates of bid128_compare.rs (all but quiet_equal / quiet_not_equal) = m_cmp for all operand words and every status word, result and flags",
- 'C06': "bid128_from_int32 / from_uint32 / from_int64 / from_uint64 = m_from_int for every integer; thorough tier: a partial theorem for bid128_to_int32_rnint (NaN, infinite, zero, |x| >= 10^10, |x| < 1)",
+ 'C03': "all 20 predicates of bid128_compare.rs = m_cmp for all operand words and every status word, result and flags",
+ 'C06': "bid128_from_int32 / from_uint32 / from_int64 / from_uint64 = m_from_int for every integer; thorough tier: bid128_to_int32_rnint and bid128_to_int32_rninta = m_to_int for every pattern and status word (result and flags; complete theorems, 3-4 minutes each)",
  'C09': "bid128_same_quantum, bid128_quantexp, bid128_llquantexp, bid128_quantum = the model for all patterns",
  'C10': "34 shared multi-word helpers of bid_internal.rs, each exact for all inputs",
  'C11': "the pack routine bid_get_BID128 with handle_UF_128 (= the model's round-and-pack for every sign, coefficient < 10^34, i32 exponent, mode and incoming status word), bid128_scalbn, bid128_ldexp, bid128_scalbln (= m_scaleb for every pattern, n, mode, status word), bid128_frexp (= m_frexp)",
  'C12': "bid128_copy, bid128_negate, bid128_abs, bid128_copy_sign = the model for all patterns",
  'C13': "the seven is_* predicates, is_normal, is_subnormal and bid128_class = the model for all 2^128 patterns (table indices in range)",
- 'C16': "34 shared multi-word helpers of bid_internal.rs, each exact for all inputs",
+ 'C16': "34 shared multi-word helpers of bid_internal.rs, each exact for all inputs; thorough tier: bid128_minnum, bid128_maxnum, bid128_minnum_mag, bid128_maxnum_mag each return, for all operand words and every status word, an outcome of the model's acceptance list m_minmax (complete theorems, 12 CPU-minutes)",
  'C17': "bid128_nextup = m_next_up and bid128_nextdown = m_next_down for every 128-bit pattern and every status word (result and flags); thorough tier: partial theorems for nextafter / nexttoward (NaN operands; nexttoward = nextafter for all inputs)",
  'C18': "bid128_total_order and bid128_total_order_mag = m_total_order / _mag for all 2^128 x 2^128 patterns",
  'C19': "bid_to_dpd128 and bid_dpd_to_bid128 = the model's DPD codec for all 2^128 words (1000 + 1024 table rows taken from the source text)",
